@@ -4,9 +4,11 @@
       (/repo/syntax/parser.go:2313-2321) call newRegexNodeCh (tree.go:140-146), i.e.
       nodeWithCaseConversion (tree.go:180-229) on a node that carries a rune; RegexNode.reduce
       (tree.go:485-490, reduceSet tree.go:1850-1866) then clears the IgnoreCase bit and turns a
-      singleton class back into One / Notone.  Modelled AS THE CODE IS: the test that decides
-      whether the rune becomes a case-equivalence class is  unicode.IsLower(ch) || unicode.IsUpper(ch)
-      (two oracles), not "ch has a SimpleFold partner".
+      singleton class back into One / Notone.  Modelled as the code is AFTER repair e0fcd53: the
+      test that decides whether the rune becomes a case-equivalence class is
+      unicode.SimpleFold(ch) != ch.  (Before the repair it was IsLower(ch) || IsUpper(ch), which left
+      titlecase letters, Roman numerals and circled letters as One nodes: `(?i)\u01C5` did not match
+      "\u01C6"; kept as Example C20_old_titlecase_unit_not_closed.)
    2. ci_first_open: which leaf of an exported tree fails the proved checker [ci_closedb]
       (Proofs/CaseProofs.v); used by the per-instance leg c20-closed for its replay text only -
       the verdict itself is [ci_closedb]. *)
@@ -15,7 +17,6 @@ From Verif Require Import Base.Prelude Model.Tree Model.Spec Model.CharClass Pro
 Section UnitOne.
   Variable cat_in : Z -> Z -> bool.
   Variable simple_fold : Z -> Z.
-  Variables is_lower is_upper : Z -> bool.      (* unicode.IsLower, unicode.IsUpper *)
 
   (* what the unit is after construction / after reduce: a One or Notone node with its option word,
      or a Set node with its option word and class.  (The loop variants Oneloop/Setloop... made by
@@ -26,13 +27,13 @@ Section UnitOne.
 
   (* nodeWithCaseConversion, tree.go:180-219, for a node with n.Set = nil:
        if n.Options&IgnoreCase == 0 { return n }
-       if n.Ch > 0 { if IsLower(ch) || IsUpper(ch) { set := {}; set.addChar(ch); set.addCaseEquivalences();
-                                                    set.negate = n.IsNotoneFamily();
-                                                    return {T: Set.., Options: n.Options &^ IgnoreCase, Set: set} } }
+       if n.Ch > 0 { if unicode.SimpleFold(ch) != ch { set := {}; set.addChar(ch); set.addCaseEquivalences();
+                                                      set.negate = n.IsNotoneFamily();
+                                                      return {T: Set.., Options: n.Options &^ IgnoreCase, Set: set} } }
        return n *)
   Definition case_conversion_ch (fuel : nat) (notone : bool) (o ch : Z) : res uleaf :=
     if negb (is_ci o) then Ok (UCh notone o ch)
-    else if (0 <? ch) && (is_lower ch || is_upper ch) then
+    else if (0 <? ch) && negb (simple_fold ch =? ch) then
       do s <- add_case_equivalences cat_in simple_fold fuel (add_char cat_in empty_cls ch) ;
       Ok (USet (Z.ldiff o OPT_CI) (set_neg s notone))
     else Ok (UCh notone o ch).
